@@ -52,6 +52,7 @@ class Env:
         self.Reach_ = z3.Function(f"Reach@{hk}", *sig, Ref, z3.BoolSort())
         self.DS_ = z3.Function(f"DFSi_stack@{hk}", *sig, Int, RSeq)
         self.DD_ = z3.Function(f"DFSi_disc@{hk}", *sig, Int, RSeq)
+        self.R_ = z3.Function(f"ReachFrom@{hk}", Ref, Int, Int, Ref, Ref, Ref, z3.BoolSort())   # uni,d,u,fv, a, b: b reachable from a
         self.dfo_ = z3.Function(f"DFSr_out@{hk}", Ref, Int, Int, Ref, Ref, RSeq, RSeq)       # uni,d,u,fv, x, V
         self.dff_ = z3.Function(f"DFSr_fold@{hk}", Ref, Int, Int, Ref, RSeq, Ref, RSeq, RSeq)  # uni,d,u,fv, p, x, V
 
@@ -102,6 +103,20 @@ class Env:
         return (And(Implies(cond, self.A(k + 1) == rhs), Implies(cond, T.flt(self.fr, self.A(k + 1)) == Flt(self.fr, rhs))),
                 Schema("A-step-count", (Ref,), lambda y: Implies(cond, Cnt(self.A(k + 1), y) == Cnt(rhs, y))))
 
+    def R(self, a, b):
+        """b is reachable from a along links neighbors() follows, through vertices of the universe (reflexive-transitive
+        closure of `step`; Lean: Relation.ReflTransGen)"""
+        return self.R_(self.uni, self.d, self.u, self.fv, a, b)
+
+    def step(self, x, w):
+        return And(Mem(self.N(x), w), self.inU(w))
+
+    def reach_defs(self, root):
+        """closure properties of ReachFrom(root, .): contains root, closed under step"""
+        return [Schema("Reach-refl", (Ref,), lambda x: self.R(x, x)),
+                Schema("Reach-closed-under-step", (Ref, Ref), lambda x, w: Implies(And(self.R(root, x), self.step(x, w)), self.R(root, w)),
+                       pair_from=("NBf@",))]
+
     def reach_axioms(self):
         """Reach is closed under in-universe neighbours and contains start (the least such set: Lean, Reach.lean)"""
         def fn(x, w):
@@ -117,7 +132,8 @@ def wellformed(c, E: Env, functional=True):
     c.assume_inv(Schema("every-link-is-two-ended-with-vertex-ends", (Ref, Ref), lambda x, l: Implies(
         And(ct.is_a(x, "Vertex"), Mem(S.links(x), l)),
         And(l != NONE, ct.is_a(l, "TwoEndedLink"), Len(S.ends(l)) == 2, Or(x == S.v1(l), x == S.v2(l)),
-            S.v1(l) != NONE, S.v2(l) != NONE, ct.is_a(S.v1(l), "Vertex"), ct.is_a(S.v2(l), "Vertex")))))
+            S.v1(l) != NONE, S.v2(l) != NONE, ct.is_a(S.v1(l), "Vertex"), ct.is_a(S.v2(l), "Vertex"))),
+        pair_from=("_links@",)))
     c.assume_inv(I5(S))
     if functional:
         # well-behaved settings: a legal direction, no abnormal scan (unknown class under ERROR, raising filter)
@@ -125,7 +141,7 @@ def wellformed(c, E: Env, functional=True):
         c.assume_inv(Schema("no-abnormal-scan", (Ref,), lambda x: Implies(ct.is_a(x, "Vertex"), Not(NB_bad(S, x, E.d, E.u, E.fv)))))
         c.assume_inv(Schema("ff_result-does-not-raise", (Ref,), lambda x: Not(T.cb1_raises(E.fr, x))))
         c.assume_inv(Schema("neighbours-are-vertices", (Ref, Ref), lambda x, w: Implies(
-            And(ct.is_a(x, "Vertex"), Mem(E.N(x), w)), And(w != NONE, ct.is_a(w, "Vertex")))))
+            And(ct.is_a(x, "Vertex"), Mem(E.N(x), w)), And(w != NONE, ct.is_a(w, "Vertex"))), pair_from=("NBf@",)))
 
 
 def cache_only_effects(o, S):
@@ -156,6 +172,17 @@ def loop_cache_loose(extra_elems=None, local_containers=()):
 # =============================================================================================== breadth first
 
 
+def listing_set_facts(o, E: Env, listing, root):
+    """C06 at the level of sets: the (unfiltered) listing starts from / contains the start vertex, has no repetition, every
+    listed vertex is reachable, and the listing is closed under in-universe neighbours.  With Lean's
+    reach_subset_of_closed the last three say: set(listing) = the vertices reachable from start."""
+    o.fact(Mem(listing, root))
+    o.fact_schema(Schema("C06-no-repetition", (Ref,), lambda x: Cnt(listing, x) <= 1))
+    o.fact_schema(Schema("C06-listed-are-reachable", (Ref,), lambda x: Implies(Mem(listing, x), E.R(root, x))))
+    o.fact_schema(Schema("C06-listing-is-closed", (Ref, Ref), lambda x, w: Implies(And(Mem(listing, x), E.step(x, w)), Mem(listing, w)),
+                         pair_from=("NBf@",)))
+
+
 def bfs_listing_facts(E: Env, K):
     """the listing A(K) is complete: the machine has expanded every listed vertex"""
     return [Len(E.A(K)) == K, K >= 1]
@@ -176,6 +203,7 @@ def _(c):
     o.out(Flt(E.fr, E.A(K)))
     for f in bfs_listing_facts(E, K):
         o.fact(f)
+    listing_set_facts(o, E, E.A(K), E.start)
     cache_only_effects(o, S)
 
 
@@ -214,12 +242,16 @@ def bfs_outer_inv(L, E: Env, with_out=True, extra=lambda acc: []):
             defs.append(g_)
             sdefs.append(sch_)
         elems_c = None
-    return LoopInv(state=st, facts=facts, ground_defs=defs, defs=sdefs,
+    return LoopInv(state=st, facts=facts + [Mem(Ak, E.start)], ground_defs=defs, defs=sdefs + E.reach_defs(E.start),
                    define={"$K": VInt(k), "$done": VSeq(done)},
                    loose=loop_cache_loose(elems_c, (queue, vis)), out=(Flt(E.fr, Ak) if with_out else None),
                    schemas=[Schema("listed-vertices-are-in-universe-vertices", (Ref,), lambda x: Implies(
                        Mem(Ak, x), And(x != NONE, ct.is_a(x, "Vertex")))),
-                       Schema("listing-duplicate-free", (Ref,), lambda x: Cnt(Ak, x) <= 1)] + extra(Ak))
+                       Schema("listing-duplicate-free", (Ref,), lambda x: Cnt(Ak, x) <= 1),
+                       # C06: everything listed is reachable; the expanded part of the listing is closed
+                       Schema("listed-vertices-are-reachable", (Ref,), lambda x: Implies(Mem(Ak, x), E.R(E.start, x))),
+                       Schema("expanded-part-is-closed", (Ref, Ref), lambda x, w: Implies(
+                           And(Mem(done, x), E.step(x, w)), Mem(Ak, w)), pair_from=("NBf@",))] + extra(Ak))
 
 
 def bfs_inner_inv(L, E: Env, with_out=True, extra=lambda acc: []):
@@ -242,11 +274,19 @@ def bfs_inner_inv(L, E: Env, with_out=True, extra=lambda acc: []):
     define = {"$P": VSeq(L.prefix), "$rest": VSeq(rest)}
     if getattr(L, "suffix", None) is not None:
         define["$SUF"] = VSeq(L.suffix)
-    return LoopInv(state=st, ground_defs=defs, loose=loop_cache_loose(elems_c, (queue, vis)),
+    done = L.env["$done"].term
+    u = L.env["u"].term
+    return LoopInv(state=st, facts=[Mem(acc, E.start)], ground_defs=defs, defs=E.reach_defs(E.start),
+                   loose=loop_cache_loose(elems_c, (queue, vis)),
                    out=(Flt(E.fr, acc) if with_out else None), define=define,
                    schemas=[Schema("listed-vertices-are-in-universe-vertices", (Ref,), lambda x: Implies(
                        Mem(acc, x), And(x != NONE, ct.is_a(x, "Vertex")))),
-                       Schema("listing-duplicate-free", (Ref,), lambda x: Cnt(acc, x) <= 1)] + extra(acc))
+                       Schema("listing-duplicate-free", (Ref,), lambda x: Cnt(acc, x) <= 1),
+                       Schema("listed-vertices-are-reachable", (Ref,), lambda x: Implies(Mem(acc, x), E.R(E.start, x))),
+                       Schema("expanded-part-is-closed", (Ref, Ref), lambda x, w: Implies(
+                           And(Mem(done, x), E.step(x, w)), Mem(acc, w)), pair_from=("NBf@",)),
+                       Schema("scanned-neighbours-are-listed", (Ref,), lambda w: Implies(
+                           And(Mem(L.prefix, w), E.inU(w)), Mem(acc, w)))] + extra(acc))
 
 
 @REG.loop("breadthfirst.ibft", 0)
@@ -319,6 +359,16 @@ def dfsi_step(E: Env, k, rest, v):
     return g, sch
 
 
+def dfsi_set_invs(E: Env, DSk, DDk, pushed=None):
+    """C06 for the explicit-stack DFS: discovered vertices are reachable and in the universe; stacked ones are reachable unless
+    outside the universe; every in-universe neighbour of a discovered vertex is discovered or still on the stack"""
+    pend = DSk if pushed is None else cat(DSk, pushed)
+    return [Schema("discovered-are-reachable", (Ref,), lambda x: Implies(Mem(DDk, x), And(E.R(E.start, x), E.inU(x)))),
+            Schema("stacked-are-reachable-or-outside", (Ref,), lambda x: Implies(Mem(pend, x), Or(E.R(E.start, x), Not(E.inU(x))))),
+            Schema("discovered-closed-up-to-stack", (Ref, Ref), lambda x, w: Implies(
+                And(Mem(DDk, x), E.step(x, w)), Or(Mem(DDk, w), Mem(pend, w))), pair_from=("NBf@",))]
+
+
 @contract("depthfirst.idft_iterative", FUNC_PARAMS, is_generator=True, props=("C06", "C07"), shards=4)
 def _(c):
     E = Env(c.S, c.ct, c.args)
@@ -331,6 +381,7 @@ def _(c):
     o.out(Flt(E.fr, E.DD_(*E.key, K)))
     o.fact(E.DS_(*E.key, K) == EMPTY())
     o.fact(K >= 1)
+    listing_set_facts(o, E, E.DD_(*E.key, K), E.start)
     cache_only_effects(o, S)
 
 
@@ -355,11 +406,12 @@ def _(L):
         sdefs += sch
     elems_c = lambda new: [Schema("stack-and-discovered", (Ref,), lambda r: And(Implies(r == stack, new(r) == DSk),
                                                                                  Implies(r == disc, new(r) == DDk)), trigger=("elems",))]
-    return LoopInv(facts=[k >= 0], ground_defs=defs, defs=sdefs, define={"$K": VInt(k)},
+    return LoopInv(facts=[k >= 0, Or(Mem(DSk, E.start), Mem(DDk, E.start))], ground_defs=defs, defs=sdefs + E.reach_defs(E.start),
+                   define={"$K": VInt(k)},
                    loose=loop_cache_loose(elems_c, (stack, disc)), out=Flt(E.fr, DDk),
                    schemas=[Schema("stacked-and-discovered-are-vertices", (Ref,), lambda x: Implies(
                        Or(Mem(DSk, x), Mem(DDk, x)), And(x != NONE, ct.is_a(x, "Vertex")))),
-                       Schema("discovered-duplicate-free", (Ref,), lambda x: Cnt(DDk, x) <= 1)])
+                       Schema("discovered-duplicate-free", (Ref,), lambda x: Cnt(DDk, x) <= 1)] + dfsi_set_invs(E, DSk, DDk))
 
 
 @REG.loop("depthfirst.idft_iterative", 1)
@@ -371,7 +423,7 @@ def _(L):
     rest, dd = S.elems(stack), S.elems(disc)
     elems_c = lambda new: [Schema("stack-and-discovered", (Ref,), lambda r: And(Implies(r == stack, new(r) == cat(rest, L.prefix)),
                                                                                  Implies(r == disc, new(r) == dd)), trigger=("elems",))]
-    return LoopInv(loose=loop_cache_loose(elems_c, (stack, disc)))
+    return LoopInv(loose=loop_cache_loose(elems_c, (stack, disc)), defs=E.reach_defs(E.start))
 
 
 REG.contract("depthfirst.dft_iterative", FUNC_PARAMS, props=("C06", "C07", "C12"))(list_form("depthfirst.idft_iterative"))
@@ -411,6 +463,17 @@ def dfr_defs(E: Env, prefix, x, V):
     return out, sch
 
 
+def dfr_set_facts(E: Env, out, x, V, scanned):
+    """C06 for the recursive pre-order below x, started with visited keys V: the vertices listed are new, not repeated,
+    reachable from x, and every in-universe neighbour of a listed vertex is listed or was visited before (for x itself, while
+    its neighbours are being scanned: those of the scanned prefix)"""
+    closed_x = (lambda w: BoolVal(True)) if scanned is None else (lambda w: Mem(scanned, w))
+    return [Schema("listed-are-new-and-not-repeated", (Ref,), lambda y: Implies(Mem(out, y), And(Not(Mem(V, y)), Cnt(out, y) <= 1))),
+            Schema("listed-are-reachable-from-the-root", (Ref,), lambda y: Implies(Mem(out, y), E.R(x, y))),
+            Schema("listed-closed-up-to-visited", (Ref, Ref), lambda y, w: Implies(
+                And(Mem(out, y), E.step(y, w), Or(y != x, closed_x(w))), Or(Mem(V, w), Mem(out, w))), pair_from=("NBf@",))]
+
+
 @contract("depthfirst._dft_recur", RECUR_PARAMS, is_generator=True, props=("C06", "C07"), shards=2)
 def _(c):
     E = Env(c.S, c.ct, c.args, start_key="v")
@@ -421,8 +484,12 @@ def _(c):
     c.requires(vis != NONE, "visited-is-a-dict")
     c.requires(Not(Mem(V, E.start)), "v-not-yet-visited")
     o = c.normal()
-    o.set("dkeys", vis, cat(V, dfo(E, E.start, V)))
-    o.out(T.flt(E.fr, dfo(E, E.start, V)))
+    out = dfo(E, E.start, V)
+    o.set("dkeys", vis, cat(V, out))
+    o.out(T.flt(E.fr, out))
+    for sch in dfr_set_facts(E, out, E.start, V, None):
+        o.fact_schema(sch)
+    o.fact(Mem(out, E.start))
     cache_only_effects(o, S)
 
 
@@ -437,7 +504,11 @@ def _(L):
     st = S.copy()
     st.write("dkeys", vis, cat(V0, r))
     defs, sdefs = dfr_defs(E, L.prefix, x, V0)
-    return LoopInv(state=st, ground_defs=defs, defs=sdefs, loose=loop_cache_loose(None), out=T.flt(E.fr, r))
+    sdefs = sdefs + E.reach_defs(x)
+    # transitivity through the neighbour whose subtree was just listed (Relation.ReflTransGen.head)
+    sdefs.append(Schema("Reach-head", (Ref, Ref), lambda w, y: Implies(And(E.step(x, w), E.R(w, y)), E.R(x, y)), trigger=("product",)))
+    return LoopInv(state=st, ground_defs=defs, defs=sdefs, loose=loop_cache_loose(None), out=T.flt(E.fr, r),
+                   facts=[Mem(r, x)], schemas=dfr_set_facts(E, r, x, V0, L.prefix))
 
 
 @contract("depthfirst.idft_recursive", FUNC_PARAMS, is_generator=True, props=("C06", "C07"))
@@ -449,6 +520,7 @@ def _(c):
     c.raises("ValueError", when=bad, label="empty-or-start-outside")
     o = c.normal(when=Not(bad), label="listing")
     o.out(T.flt(E.fr, dfo(E, E.start, EMPTY())))
+    listing_set_facts(o, E, dfo(E, E.start, EMPTY()), E.start)
     cache_only_effects(o, S)
 
 
